@@ -34,7 +34,7 @@ type Expansion struct {
 
 // QuickFixtures is the subset expanded by the quick tier.
 var QuickFixtures = []string{"sample_api", "test_parameters", "test_security", "test_form", "test_http_requests",
-	"test_http_responses", "test_webhooks", "ex_route_params", "ex_oauth2", "sample_err"}
+	"test_http_responses", "test_webhooks", "ex_route_params", "ex_oauth2", "sample_err", "test_client_options"}
 
 type directive struct {
 	origin string
